@@ -13,7 +13,7 @@ rows = []
 for m in metas:
     det = '; '.join('%s: %s' % (p, ', '.join(r)) for p, r in sorted(m.get('detected_by_rules', {}).items())) or '— (see note)'
     rows.append('| %s | %s | %s | %s | %s |' % (m['id'], m['breaks_property'], m['change'].replace('|', '/')[:230], det, m.get('detection', '')))
-sec6 = rd('design_seeds.md').replace('@@MATRIX@@', '\n'.join(rows)).replace('@@NSEEDS@@', str(len(metas)))
+sec6 = rd('design_seeds.md').replace('@@MATRIX@@', '\n'.join(rows)).replace('@@NSEEDS@@', str(len([m for m in metas if m.get('round', 1) == 1])))
 # appendix
 app = ['\n---------------------------------------------------------------------------------------------\n', '## Appendix A. Rules applied per property (generated)\n']
 for f in sorted(glob.glob(os.path.join(H, 'evidence', 'C*.json'))):
